@@ -6,6 +6,7 @@ package cmd
 // temporary files.
 
 import (
+	"errors"
 	"fmt"
 	goio "io"
 	"os"
@@ -22,6 +23,10 @@ type zzCloser struct{}
 func (zzCloser) Close() error { return nil }
 
 func zz_readTrees(file string) (goio.Closer, <-chan tree.Trees, error) {
+	if file == "none" {
+		// "none" is the placeholder of an input that was not given: no such file
+		return nil, nil, errors.New("open none: no such file or directory")
+	}
 	if zzErrAt >= 0 {
 		return zzReadTreesErr(file)
 	}
